@@ -134,7 +134,7 @@ struct C17 : Scenario {
             plan_file(p, "start.txt", t);
         } else if (u < 0.3) {
             c.startfile = "start.h5";
-            c.currents = {1e-3};
+            if (r.chance(0.5)) c.currents = {1e-3};   // (a start file forces one bunch; several currents with it are still accepted)
             int k = (int)r.range(0, 6);
             p.seti("h5start.kind", k);
             p.seti("h5start.arg", r.range(0, 1000000));
